@@ -178,8 +178,12 @@ def run(ctx: Any, prog: Program) -> None:
     # entries: struct.pack('<3sB..') calls outside the resources loop
     ent_uncond, ent_guards = 0, []
     parents = vtf.parents
+    # a local helper of save() that packs one table entry (`def offset_entry(res_id, key, flags=0)`): each call of it is an entry
+    entry_helpers = {f_.name for f_ in ast.walk(sv) if isinstance(f_, ast.FunctionDef) and f_ is not sv and any(isinstance(x, ast.Call) and dotted(x.func) == 'struct.pack' and x.args and isinstance(x.args[0], ast.Constant)
+                                                                                                                 and str(x.args[0].value).startswith('<3sB') for x in ast.walk(f_))}
+    in_res_loop: List[ast.Call] = []
     for c in walk_no_nested(sv):
-        if isinstance(c, ast.Call) and dotted(c.func) == 'struct.pack' and isinstance(c.args[0], ast.Constant) and str(c.args[0].value).startswith('<3sB'):
+        if isinstance(c, ast.Call) and ((dotted(c.func) == 'struct.pack' and c.args and isinstance(c.args[0], ast.Constant) and str(c.args[0].value).startswith('<3sB')) or (isinstance(c.func, ast.Name) and c.func.id in entry_helpers)):
             p = c
             guard = None
             in_loop = False
@@ -191,6 +195,7 @@ def run(ctx: Any, prog: Program) -> None:
                     guard = U(q.test)
                 p = q
             if in_loop:
+                in_res_loop.append(c)
                 continue
             if guard is None:
                 ent_uncond += 1
@@ -198,6 +203,14 @@ def run(ctx: Any, prog: Program) -> None:
                 ent_guards.append(guard)
     ctx.check('C15.F1', ent_uncond == fixed and sorted(ent_guards) == inc_guards, vtf, rc[0], f'res_count adds {fixed} fixed entries and one under {inc_guards}; save() writes {ent_uncond} unconditional entries and one under {sorted(ent_guards)}',
               func='VTF.save', text='resource count = entries written')
+    # the entries of the user's own resources carry that resource's flags byte (read() stores it in Resource.flags): every entry written
+    # inside the loop over self.resources takes it from the loop's resource
+    for c in in_res_loop:
+        lp_ = next((a for a in _anc(vtf, c, sv) if isinstance(a, ast.For)), None)
+        res_vars = {x.id for x in ast.walk(lp_.target) if isinstance(x, ast.Name)} if lp_ is not None else set()
+        has_flags = any(isinstance(x, ast.Attribute) and x.attr == 'flags' and isinstance(x.value, ast.Name) and x.value.id in res_vars for a in list(c.args) + [k.value for k in c.keywords] for x in ast.walk(a))
+        ctx.check('C15.F1', has_flags, vtf, c, f'`{U(c)[:70]}` writes the table entry of a user resource without its flags (nothing derived from `<resource>.flags` is passed): the flags byte is written as a constant and '
+                  'the resource reads back with other flags than it had', func='VTF.save', text=f'user resource entry carries its flags: {U(c)[:30]}')
     # an offset recorded with file.tell() is the position of the item's first byte: whatever is written next is what the reader finds there.
     # Filler (alignment padding: bytes(n), b'\\0' * n) written *after* the offset was recorded shifts the item away from its recorded position.
     def is_filler(e: ast.AST) -> bool:
@@ -775,6 +788,52 @@ def run(ctx: Any, prog: Program) -> None:
         bad = [a for a in re_assigns if not (isinstance(a.value, ast.Call) and dotted(a.value.func) == 'ResourceID')]
         ctx.check('C15.F1', not bad, vtf, bad[0] if bad else id_unpacks[0], (f'VTF.read rewrites the resource id it read (`{U(bad[0])[:60]}`) before using it as key: save() packs custom ids verbatim with `3s`, so an id that '
                   'legitimately ends in a NUL byte (b"AB\\0") comes back under a different key') if bad else 'id used as read / as ResourceID member', func='VTF.read', text='resource id stored as read')
+    # ---- F2 (pending loads): new pixels cancel the load that is still pending -----------------------------------------------------------------
+    # a frame read from a file holds `_fileinfo` until its pixels are first needed; load() then reads the file image over `_data`.  Every
+    # method that puts other pixels into the frame therefore clears `_fileinfo` on the same path - otherwise the next access (or save())
+    # loads the old image over the new one.
+    def _follow(stmt: ast.stmt, fn_: ast.AST) -> List[ast.stmt]:
+        out_: List[ast.stmt] = []
+        cur_: ast.AST = stmt
+        while True:
+            par_ = vtf.parents.get(cur_)
+            if par_ is None:
+                break
+            for fld_ in ('body', 'orelse', 'finalbody'):
+                b_ = getattr(par_, fld_, None)
+                if isinstance(b_, list) and cur_ in b_:
+                    for st_ in b_[b_.index(cur_) + 1:]:
+                        out_.append(st_)
+                        if isinstance(st_, (ast.Return, ast.Raise)):
+                            return out_
+            if par_ is fn_ or isinstance(par_, (ast.For, ast.While)):
+                break
+            cur_ = par_
+        return out_
+    n_px = 0
+    for fq, ff in fr.items():
+        if fq in ('load', '__init__', '__new__'):
+            continue
+        me_f = ff.args.args[0].arg if ff.args.args else 'self'
+        for st in walk_no_nested(ff):
+            if not isinstance(st, (ast.Assign, ast.AugAssign)):
+                continue
+            tg_ = st.targets if isinstance(st, ast.Assign) else [st.target]
+            writes_px = any((isinstance(t, ast.Attribute) and t.attr == '_data' and dotted(t.value) == me_f) or (isinstance(t, ast.Subscript) and isinstance(t.value, ast.Attribute) and t.value.attr == '_data' and dotted(t.value.value) == me_f
+                                                                                                             and isinstance(t.slice, ast.Slice)) for t in tg_)
+            if not writes_px:
+                continue
+            # allocating the blank array (`self._data = _BLANK_PIXEL * n` when nothing was allocated) puts no image into the frame
+            if isinstance(st, ast.Assign) and isinstance(st.value, ast.BinOp) and isinstance(st.value.op, ast.Mult) and any(isinstance(x, ast.Name) and x.id == '_BLANK_PIXEL' for x in ast.walk(st.value)):
+                continue
+            n_px += 1
+            clears_here = any(isinstance(t, ast.Attribute) and t.attr == '_fileinfo' and dotted(t.value) == me_f for t in tg_)
+            clears_after = any(isinstance(a, ast.Assign) and any(isinstance(t, ast.Attribute) and t.attr == '_fileinfo' and dotted(t.value) == me_f for t in a.targets) and isinstance(a.value, ast.Constant) and a.value.value is None
+                               for f_ in _follow(st, ff) for a in ast.walk(f_))
+            ctx.check('C15.F2', clears_here or clears_after, vtf, st, f'Frame.{fq} stores new pixels with `{U(st)[:50]}` and does not clear `_fileinfo` on that path: a frame that came from a file and was not loaded yet still has its '
+                      'load pending, so the next pixel access or save() reads the old image back over the new pixels', func=f'Frame.{fq}', text=f'Frame.{fq}: `{U(st)[:30]}` cancels the pending load')
+    ctx.shape('C15.F2', n_px >= 3, vtf, vtf.cls('Frame'), f'{n_px} stores of pixel data found in Frame methods (fill, copy_from ...)', func='Frame', text='pixel stores examined')
+
     # ---- F7: resources that save() writes from structured state are not also kept raw ------------------------------------------------------
     # save() writes every entry of `self.resources` and, besides, entries it builds itself (`struct.pack(.., ResourceID.X.value, ..)`: the two
     # image blocks and the particle sheet from `sheet_info`).  read() must therefore keep those ids out of the raw table - never store them, or
@@ -946,6 +1005,8 @@ def accepted_region(test: ast.AST, coords: Tuple[str, str] = ('x', 'y')) -> Dict
 
 
 MUTANTS: List[Dict[str, Any]] = [
+    {'id': 'copy_from_keeps_pending_load', 'file': 'vtf.py', 'find': "            if self._data is None:  # Duplicate the other array\n                self._data = source._data[:]\n            else:  # Copy the other array onto us\n                self._data[:] = source._data\n            self._fileinfo = None", 'replace': "            if self._data is None:  # Duplicate the other array\n                self._data = source._data[:]\n            else:  # Copy the other array onto us\n                self._data[:] = source._data\n                self._fileinfo = None", 'expect': 'C15.F2'},
+    {'id': 'user_resource_flags_dropped', 'file': 'vtf.py', 'find': "                    file.write(struct.pack('<3sB', getattr(res_id, 'value', res_id), res.flags & ~0x02))", 'replace': "                    file.write(struct.pack('<3sB', getattr(res_id, 'value', res_id), 0))", 'expect': 'C15.F1'},
     {'id': 'grey_by_multiply_shift', 'file': '_py_vtf_readwrite.py', 'find': "        data[offset] = (\n            pixels[4 * offset] +\n            pixels[4 * offset + 1] +\n            pixels[4 * offset + 2]\n        ) // 3", 'replace': "        data[offset] = ((\n            pixels[4 * offset] +\n            pixels[4 * offset + 1] +\n            pixels[4 * offset + 2]\n        ) * 171) >> 9", 'expect': 'C15.F3'},
     {'id': 'ok_grey_by_multiply_shift_exact', 'file': '_py_vtf_readwrite.py', 'find': "        data[offset] = (\n            pixels[4 * offset] +\n            pixels[4 * offset + 1] +\n            pixels[4 * offset + 2]\n        ) // 3", 'replace': "        data[offset] = ((\n            pixels[4 * offset] +\n            pixels[4 * offset + 1] +\n            pixels[4 * offset + 2]\n        ) * 43691) >> 17", 'expect': None, 'refuse_ok': True},
     {'id': 'read_keeps_raw_particle_sheet', 'file': 'vtf.py', 'find': "                sheet_data = vtf.resources.pop(ResourceID.PARTICLE_SHEET).data", 'replace': "                sheet_data = vtf.resources[ResourceID.PARTICLE_SHEET].data", 'expect': 'C15.F7'},
